@@ -88,13 +88,20 @@ def gen_case(seed, tier, index=0):
         env["short_io"] = rng.pick([5, 50, 200])
     serial = rng.chance(0.6)
     pool = None if serial else {"n": rng.pick([1, 2, 3, 4]), "key": rng.randrange(1 << 30)}
-    lint = dict(env, argv=(["--no-multiprocessing"] if serial else []) + ["lint", "--json"])
+    root_opt = []
+    subdirs = sorted({f["path"].split("/")[0] for f in files if "/" in f["path"] and not f["path"].startswith((".", "LICENSES", "sta*"))})
+    if subdirs and rng.chance(0.3):
+        # run from a subdirectory: with --root .., or relying on Git to find the root
+        env["cwd"] = rng.pick(subdirs)
+        if not world.get("git") or rng.chance(0.5):
+            root_opt = ["--root", ".."]
+    lint = dict(env, argv=root_opt + (["--no-multiprocessing"] if serial else []) + ["lint", "--json"])
     if pool:
         lint["pool"] = pool
-    steps = [dict(lint), dict(env, argv=["convert-dep5"]), dict(lint)]
+    steps = [dict(lint), dict(env, argv=root_opt + ["convert-dep5"]), dict(lint)]
     if rng.chance(0.15):
         # the 'refuses to run without dep5' clause: a second conversion must be a usage error
-        steps.append(dict(env, argv=["convert-dep5"]))
+        steps.append(dict(env, argv=root_opt + ["convert-dep5"]))
     return {"prop": PROP, "seed": seed, "world": world, "torn_seed": rng.randrange(1 << 30),
             "variants": [{"hashseed": rng.randrange(8), "steps": steps, "kind": "fault-free"}]}
 
@@ -213,7 +220,7 @@ def oracle(case, results):
     dep5_text = next((f["content"] for f in world["files"] if f["path"] == ".reuse/dep5"), None)
     v0 = case["variants"][0]
     r0 = results[0]["records"]
-    conv_idx = next((i for i, s in enumerate(v0["steps"]) if s.get("argv") == ["convert-dep5"]), None)
+    conv_idx = next((i for i, s in enumerate(v0["steps"]) if s.get("argv", [])[-1:] == ["convert-dep5"]), None)
     if conv_idx is None:
         return vs
     conv = r0[conv_idx]
@@ -236,7 +243,7 @@ def oracle(case, results):
         vs.append({"sig": "C17/fault-free/touched-other-files", "detail": str(sorted(extra))})
     # second conversion (when present) must be refused
     for i in range(conv_idx + 1, len(v0["steps"])):
-        if v0["steps"][i].get("argv") == ["convert-dep5"]:
+        if v0["steps"][i].get("argv", [])[-1:] == ["convert-dep5"]:
             rr = r0[i]
             if rr.get("exit") != 2 or rr.get("exc") or _real_changes(rr):
                 vs.append({"sig": "C17/no-dep5-not-refused", "detail": f"second run: exit={rr.get('exit')} exc={rr.get('exc')}"})
